@@ -620,6 +620,10 @@ func init() {
 			for _, b := range mb {
 				rs = append(rs, HRun{Pkg: "./shovel", Fn: "ZZ_C05_Moving", Params: []int{b}})
 			}
+			// two steps of one task; between them a referenced integration loses its only position
+			for _, b := range []int{1, 2} {
+				rs = append(rs, HRun{Pkg: "./shovel", Fn: "ZZ_C05_Lost", Params: []int{b}, Label: "reference-loses-its-progress"})
+			}
 			for rb := 0; rb <= 4; rb++ {
 				for rc := 0; rc <= 4; rc++ {
 					for o := 0; o <= 2; o++ {
@@ -632,6 +636,7 @@ func init() {
 		Assumptions: append([]string{
 			"the CTE of latestDependency is modelled by hand from its SQL (per referenced integration of the same source its newest cursor row; of those the smallest; plus the number of referenced integrations that have rows); a same-named integration on another source is present and must not count",
 			"relative speeds (ZZ_C05_Moving): the dependent's top position is orphaned so its step takes a reorg pass and loops; before every later pass another session commits an arbitrary new position of the referenced integration (forward or back), visible to the open transaction as under READ COMMITTED; the recorded position and every processed block must not lie beyond the referenced position as of the last pass. A change after the last pass (before the commit) is the inherent window of the design and is not asserted",
+			"a reference that loses its progress (ZZ_C05_Lost): two steps of ONE task with two referenced integrations that both have a position at the first step; the first reference's only position row is then removed (its own reorg) and the second step must record nothing",
 			"config.ValidateFix/ValidateFilterRefs: for two integrations referencing a/x through event inputs or block fields in 25 arrangements x 3 declaration orders (case-split), every referenced integration is listed in Dependencies and the referenced table is taken from the referenced integration; that reference lookups run on the inserting transaction is not covered",
 		}, convAssume...),
 		Bounds:  map[string]string{"quick": "1-2 referenced integrations with 0..2 cursor rows each (0 = not started), own position present or not; moving dependency with batch 1-2", "thorough": "moving dependency with batch 1-4"},
